@@ -152,9 +152,11 @@ def run(tw, tier, seed, only=None):
     rng = random.Random(seed)
     fails, cases, nontriv, samples = [], 0, 0, []
     graphs = gen.labelled_graphs(3 if tier == "quick" else 4, hcounts=(0,), limit=150 if tier == "quick" else 700, rng=rng)
-    for G in graphs:
+    for gi, G in enumerate(graphs):
         for n in G.nodes:
             G.nodes[n]["aromatic"] = False
+        if gi % 3 == 1 and G.number_of_nodes() >= 2:          # same element, different formal charge: must not be exchangeable
+            G.nodes[sorted(G.nodes)[0]]["charge"] = 1
         cases += 1
         nontriv += check_graph(tw, G, rng, fails, {"kind": "enumerated"})
         if len(fails) > 30:
@@ -167,6 +169,11 @@ def run(tw, tier, seed, only=None):
             fam[u][v]["order"] = 1
         cases += 1
         nontriv += check_graph(tw, fam, rng, fails, {"kind": "symmetric-family"})
+        if fam.number_of_nodes() >= 2:
+            ch = fam.copy()
+            ch.nodes[sorted(ch.nodes)[0]]["charge"] = 1       # one charged atom breaks the symmetry of the family
+            cases += 1
+            nontriv += check_graph(tw, ch, rng, fails, {"kind": "symmetric-family-charged"})
     return {"cases": cases, "nontrivial": nontriv, "failures": fails, "samples": [gen.graph_desc(graphs[0])], "exhaustive": False,
             "evaluations": tw.evaluations,
             "bound": "%d labelled graphs <= %d atoms (2 elements, 2 orders; sampled) + cycles C4/C5, K2,2, P4, star; matches of each graph into two disjoint copies of itself" % (
